@@ -12,3 +12,10 @@ import DclabModel.Properties.C18
 import DclabModel.Properties.C01
 import DclabModel.Properties.C20
 import DclabModel.Properties.C11
+import DclabModel.Properties.C02
+import DclabModel.Properties.C12
+import DclabModel.Properties.C06
+import DclabModel.Properties.C09
+import DclabModel.Properties.C10
+import DclabModel.Properties.C08
+import DclabModel.Properties.C13
